@@ -213,6 +213,8 @@ class C20(Check):
         feats = ",".join(sorted(f for f in cfg["features"]))
         where = "last tool: %s; bs %d, %d groups of %d blocks, features %s" % (last, bs, fs.group_count, fs.blocks_per_group, feats)
         lastk = last.split()[0].split("(")[0] + ("" if step["kind"] != "tune" else ":" + "".join(step["args"][:2]))
+        if step["kind"] == "resize" and last != "mke2fs" and fs.has("sparse_super2"):
+            lastk += "+sparse_super2"
         o.sample = {"last_tool": last, "bs": bs, "groups": fs.group_count, "bpg": fs.blocks_per_group, "features": feats,
                     "backup_groups": fs.backup_groups()[:12]}
 
